@@ -1,14 +1,20 @@
 package validator
 
 // Harness for C06 (DESIGN 5/C06).  TestVerifC06Replay reads behaviours of the contract
-// specs/Validator.tla ([init cfg] [present req | adv d | sync users | reconf cfg mat users]*), builds for
+// specs/Validator.tla ([init cfg] [present req | adv d | sync users | edit users | settle | reconf cfg mat users]*), builds for
 // every behaviour K real Validator filters with seeded secrets / access keys / users, concretises every presented
 // abstract request K times (independent HMAC JWT issuer; the repository's signer as the client
 // library, the mutation applied AFTER signing; htpasswd file / etcd entries written by the harness),
 // sends each request through the wire format and through httpprot.NewRequest + FetchPayload exactly
 // as the HTTP server's mux does, calls Validator.Handle and logs what it observed.  `adv` moves the
 // JWT clock (jwt.TimeFunc); `sync` delivers a snapshot of the credential table through the channel
-// the validator's etcd watcher reads (users removed, passwords changed, empty table); `reconf` is a hot
+// the validator's etcd watcher reads (users removed, passwords changed, empty table); `edit` rewrites the
+// user file of a FILE mode validator (in place, by appending, in chunks - any number of edits in a row, as
+// fast as the harness can write); `settle` grants the validator's file watcher the bounded time of the
+// contract: it returns as soon as a probe user that the last edit wrote at the END of the file is admitted
+// by the validator's BasicAuthValidator (the file as last written has been loaded), or after c06SettleMax
+// (then the whole prefix of the behaviour is run again in a fresh world with twice the time, so that a
+// stalled machine cannot be mistaken for a lost edit); `reconf` is a hot
 // update: a new filter instance is created from the new spec (other JWT secret / algorithm, other access
 // keys, other users, methods added or dropped - or the same spec) with kind.CreateInstance and
 // Inherit(running instance), the running one is closed, as pipeline.reload does.  No verdict
@@ -62,7 +68,15 @@ const (
 	c06IgnoredHdr = "X-Ignored-Hdr"
 	c06SignedHdr  = "X-Signed-Hdr"
 	c06Tick       = 100 // seconds per tick of the contract's clock
+
+	// FILE mode: how long the user file must have been left alone before only its current content counts.
+	// (The unchanged code reloads on every fsnotify event: a few milliseconds.)
+	c06SettleMax     = 10 * time.Second
+	c06SettleRecheck = 20 * time.Second // in the fresh world of the re-check
+	c06StuckMax      = 3                // after so many settles that did not converge (re-check included) FILE edits are not waited for any more
 )
+
+var c06Stuck int // settles that did not converge, re-check included
 
 var c06T0 = time.Date(2031, 5, 6, 7, 8, 9, 0, time.UTC) // virtual time of tick 0 (JWT clock only)
 
@@ -208,6 +222,12 @@ type c06World struct {
 	stores     map[string]map[string]string // ETCD mode: what the cluster store holds under each prefix
 	prefix     string                 // ETCD mode: the prefix of the running generation's spec
 	userFile   string                 // FILE mode: the user file of the running generation's spec
+	fileLines  []string               // FILE mode: the entries the user file holds (without probe users)
+	edits      int                    // FILE mode: number of edits of the user file so far (all generations)
+	burst      int                    // FILE mode: edits since the source was last settled
+	maxBurst   int                    // FILE mode: edits in a row before the last settle
+	probe      [2]string              // FILE mode: name and password of the probe user written by the last edit ("": none pending)
+	editNotes  []string
 	syncCh     chan map[string]string // ETCD mode: the channel the running generation's watcher reads
 	super      *supervisor.Supervisor
 	v          filters.Filter
@@ -391,13 +411,20 @@ func (w *c06World) build(cfg, mat, users vx.M, r *rand.Rand) {
 		if p == "" || !w.sameUsers(users) {
 			w.builds++
 			p = filepath.Join(w.dir, fmt.Sprintf("htpasswd-%d", w.builds))
-			if err := os.WriteFile(p, []byte(strings.Join(w.lines(users, false), "\n")+"\n"), 0o600); err != nil {
+			ls := w.lines(users, false)
+			if err := os.WriteFile(p, []byte(strings.Join(ls, "\n")+"\n"), 0o600); err != nil {
 				panic(err)
 			}
+			defer func() {
+				if w.buildErr == "" {
+					w.fileLines = ls
+				}
+			}()
 		}
 		defer func() {
 			if w.buildErr == "" {
-				w.userFile = p
+				// the new generation has read its file when it was created: nothing is pending
+				w.userFile, w.probe, w.burst = p, [2]string{}, 0
 			}
 		}()
 		if mode == "file" {
@@ -534,6 +561,188 @@ func (w *c06World) deliver(kvs map[string]string) error {
 		}
 	}
 	return nil
+}
+
+// edit rewrites the user file of the running generation so that it holds `table` (plus somebody else's entry and,
+// as the LAST line, a fresh probe user).  How: one truncating write (os.WriteFile); appended to the file when
+// nothing is removed; truncated and written entry by entry in several chunks.  Always the same inode, as htpasswd(1)
+// does; every write ends at a line boundary and the file stays far below one page.
+func (w *c06World) edit(table vx.M, r *rand.Rand) error {
+	if w.userFile == "" {
+		return fmt.Errorf("edit of the user file of a configuration without FILE mode")
+	}
+	lines := w.lines(table, false)
+	r.Shuffle(len(lines), func(i, j int) { lines[i], lines[j] = lines[j], lines[i] })
+	w.edits++
+	probe := [2]string{fmt.Sprintf("c06probe-%d-%s", w.edits, c06Str(r, c06Letters, 4, 8)), "pp" + c06Str(r, c06Letters, 6, 10)}
+	probeLine := probe[0] + ":" + probe[1]
+	have := map[string]bool{}
+	for _, l := range lines {
+		have[l] = true
+	}
+	superset := true
+	for _, l := range w.fileLines {
+		superset = superset && have[l]
+	}
+	style := r.Intn(3)
+	if style == 1 && !superset {
+		style = 2 * r.Intn(2)
+	}
+	var err error
+	switch style {
+	case 0: // truncate + one write
+		err = os.WriteFile(w.userFile, []byte(strings.Join(append(append([]string{}, lines...), probeLine), "\n")+"\n"), 0o600)
+		w.editNotes = append(w.editNotes, "rewrite")
+	case 1: // nothing removed: append the new entries
+		old := map[string]bool{}
+		for _, l := range w.fileLines {
+			old[l] = true
+		}
+		var add []string
+		for _, l := range lines {
+			if !old[l] {
+				add = append(add, l)
+			}
+		}
+		var f *os.File
+		if f, err = os.OpenFile(w.userFile, os.O_WRONLY|os.O_APPEND, 0o600); err == nil {
+			_, err = f.WriteString(strings.Join(append(add, probeLine), "\n") + "\n")
+			f.Close()
+		}
+		w.editNotes = append(w.editNotes, "append")
+	default: // truncate, then the entries in several writes
+		var f *os.File
+		if f, err = os.OpenFile(w.userFile, os.O_WRONLY|os.O_TRUNC, 0o600); err == nil {
+			all := append(append([]string{}, lines...), probeLine)
+			for i := 0; i < len(all) && err == nil; {
+				k := 1 + r.Intn(len(all)-i)
+				_, err = f.WriteString(strings.Join(all[i:i+k], "\n") + "\n")
+				i += k
+				if r.Intn(2) == 0 {
+					time.Sleep(time.Duration(r.Intn(3000)) * time.Microsecond)
+				}
+			}
+			f.Close()
+		}
+		w.editNotes = append(w.editNotes, "chunks")
+	}
+	if err != nil {
+		return err
+	}
+	w.fileLines, w.probe = lines, probe
+	w.burst++
+	for _, k := range c06KnownUsers {
+		w.users[k] = vx.Str(table[k])
+	}
+	return nil
+}
+
+// probeOK: do the credentials of the probe user pass the running generation's Basic validator?
+func (w *c06World) probeOK() bool {
+	v, ok := w.v.(*Validator)
+	if !ok || v.basicAuth == nil {
+		return false
+	}
+	stdr, _ := http.NewRequest(http.MethodGet, "http://probe.example/", nil)
+	stdr.Header.Set("Authorization", "Basic "+base64.StdEncoding.EncodeToString([]byte(w.probe[0]+":"+w.probe[1])))
+	req, err := httpprot.NewRequest(stdr)
+	if err != nil {
+		return false
+	}
+	req.FetchPayload(0)
+	defer func() { recover() }()
+	return v.basicAuth.Validate(req) == nil
+}
+
+// settle waits until the file as last written is in effect (the probe user of the last edit is admitted), at most
+// `max`.  Nothing pending (no edit since the generation was built or since the last settle that converged): no wait.
+func (w *c06World) settle(max time.Duration) (bool, time.Duration) {
+	start := time.Now()
+	w.maxBurst, w.burst = w.burst, 0
+	if w.probe[0] == "" {
+		return true, 0
+	}
+	for {
+		if w.probeOK() {
+			w.probe = [2]string{}
+			return true, time.Since(start)
+		}
+		if time.Since(start) > max {
+			return false, time.Since(start)
+		}
+		time.Sleep(2 * time.Millisecond)
+	}
+}
+
+// apply executes a step that changes the world (everything but present).  It returns "" or why the behaviour
+// cannot be continued.
+func (w *c06World) apply(cfg vx.M, rep, si int, st vx.M, max time.Duration) (stop string, conv bool, took time.Duration) {
+	conv = true
+	switch vx.Str(st["a"]) {
+	case "adv":
+		w.now += vx.Int(st["d"])
+	case "sync":
+		if w.syncCh == nil || vx.Str(w.cfg["basic"]) != "etcd" {
+			return fmt.Sprintf("sync step in a behaviour of a configuration without etcd: %v", w.cfg), true, 0
+		}
+		if err := w.sync(c06M(st["users"]), vx.Rand(c06Hash("sync", cfg, rep, si))); err != nil {
+			return err.Error(), true, 0
+		}
+	case "edit":
+		if err := w.edit(c06M(st["users"]), vx.Rand(c06Hash("edit", cfg, rep, si))); err != nil {
+			return err.Error(), true, 0
+		}
+	case "settle":
+		conv, took = w.settle(max)
+	case "reconf":
+		w.buildErr = ""
+		w.build(c06M(st["cfg"]), c06M(st["mat"]), c06M(st["users"]), vx.Rand(c06Hash("reconf", cfg, rep, si)))
+		if w.buildErr != "" {
+			return "builderr", true, 0
+		}
+		hb, _ := json.Marshal(vx.M{"cfg": st["cfg"], "mat": st["mat"], "users": st["users"], "afterStep": si})
+		w.history = append(w.history, string(hb))
+	}
+	return
+}
+
+func c06NoTok() vx.M {
+	return vx.M{"p": false, "key": "-", "alg": "-", "halg": "-", "nbf": -1, "exp": -1, "iat": "absent", "mut": "none"}
+}
+
+func c06NoSg() vx.M {
+	mut := vx.M{}
+	for _, p := range []string{"method", "path", "pathenc", "query", "sheader", "iheader", "body", "sig"} {
+		mut[p] = false
+	}
+	return vx.M{"p": false, "carrier": "-", "key": "-", "age": "-", "pexp": "-", "cexcl": false, "body": false, "mut": mut}
+}
+
+// c06Recheck: a settle did not converge.  The state-changing steps of the behaviour up to and including that settle
+// are run again on a fresh world, the last settle with twice the time.
+func c06Recheck(cfg vx.M, rep, now0 int, steps []vx.M) (*c06World, bool, time.Duration) {
+	w := c06NewWorld(cfg, rep)
+	if w.v == nil || w.buildErr != "" {
+		w.close()
+		return nil, false, 0
+	}
+	w.now = now0
+	conv, took := true, time.Duration(0)
+	for si, st := range steps {
+		if vx.Str(st["a"]) == "present" {
+			continue
+		}
+		max := c06SettleMax
+		if si == len(steps)-1 {
+			max = c06SettleRecheck
+		}
+		var stop string
+		if stop, conv, took = w.apply(cfg, rep, si, st, max); stop != "" {
+			w.close()
+			return nil, false, 0
+		}
+	}
+	return w, conv, took
 }
 
 func (w *c06World) close() {
@@ -1230,6 +1439,21 @@ func TestVerifC06Replay(t *testing.T) {
 		trace.Raw(ev)
 		return line
 	}
+	present := func(w *c06World, bi, si, rep int, areq vx.M, st vx.M) {
+		c := c06Concretise(w, areq, rep)
+		chunked := vx.Rand(c06Hash("chunk", w.cfg0, c06Family(areq), rep)).Intn(4) == 0
+		obs, wire := c06Serve(w, c, chunked)
+		res := vx.M{"acc": obs.acc, "status": obs.status, "intact": obs.intact}
+		ln := emit(vx.M{"ev": "present", "req": areq, "res": res})
+		sum := sha256.Sum256(c.body)
+		out.Raw(vx.M{"k": "case", "line": ln, "beh": bi, "step": si + 1, "rep": rep, "cfg": w.cfg, "mat": w.mat, "gen": w.gen,
+			"history": w.history, "edits": w.edits, "settled": w.burst == 0, "burst": w.burst, "lastBurst": w.maxBurst, "how": w.editNotes,
+			"now": w.now, "users": map[string]string{"uPlain": w.users["uPlain"], "uColon": w.users["uColon"], "uBlank": w.users["uBlank"]},
+			"req": areq, "exp": st["exp"], "v": st["v"], "impl": st["impl"], "res": res, "tag": obs.tag, "panic": obs.panicV,
+			"result": obs.result, "wire": wire, "bodyLen": len(c.body), "bodySha": hex.EncodeToString(sum[:6]),
+			"chunked": chunked && len(c.body) > 0, "mutations": c.note})
+		cases++
+	}
 	for bi, beh := range behs {
 		if len(beh) == 0 || vx.Str(beh[0]["a"]) != "init" {
 			t.Fatalf("behaviour %d does not start with init", bi)
@@ -1246,43 +1470,65 @@ func TestVerifC06Replay(t *testing.T) {
 			emit(vx.M{"ev": "reset", "cfg": cfg, "now": w.now})
 		steps:
 			for si, st := range beh[1:] {
-				switch vx.Str(st["a"]) {
-				case "adv":
-					w.now += vx.Int(st["d"])
-					emit(vx.M{"ev": "adv", "d": vx.Int(st["d"])})
-				case "sync":
-					if w.syncCh == nil || vx.Str(w.cfg["basic"]) != "etcd" {
-						t.Fatalf("sync step in a behaviour of a configuration without etcd: %v", w.cfg)
-					}
-					if err := w.sync(c06M(st["users"]), vx.Rand(c06Hash("sync", cfg, rep, si))); err != nil {
-						t.Fatalf("c06: %v", err)
-					}
-					emit(vx.M{"ev": "sync", "users": st["users"]})
-				case "reconf": // hot update: new spec, new generation built with Inherit from the running one
-					ncfg, nmat, nusers := c06M(st["cfg"]), c06M(st["mat"]), c06M(st["users"])
-					w.buildErr = ""
-					w.build(ncfg, nmat, nusers, vx.Rand(c06Hash("reconf", cfg, rep, si)))
-					if w.buildErr != "" {
-						out.Raw(vx.M{"k": "builderr", "cfg": ncfg, "err": w.buildErr, "gen": w.gen + 1})
+				switch a := vx.Str(st["a"]); a {
+				case "adv", "sync", "edit", "settle", "reconf":
+					if (a == "edit" || a == "settle") && c06Stuck >= c06StuckMax {
+						out.Raw(vx.M{"k": "skipped", "beh": bi, "rep": rep, "step": si + 1, "why": "FILE edits do not converge"})
 						break steps
 					}
-					hb, _ := json.Marshal(vx.M{"cfg": ncfg, "mat": nmat, "users": nusers, "afterStep": si})
-					w.history = append(w.history, string(hb))
-					emit(vx.M{"ev": "reconf", "cfg": ncfg, "mat": nmat, "users": nusers})
+					stop, conv, took := w.apply(cfg, rep, si, st, c06SettleMax)
+					if stop == "builderr" {
+						out.Raw(vx.M{"k": "builderr", "cfg": st["cfg"], "err": w.buildErr, "gen": w.gen + 1})
+						break steps
+					} else if stop != "" {
+						t.Fatalf("c06: %s", stop)
+					}
+					switch a {
+					case "adv":
+						emit(vx.M{"ev": "adv", "d": vx.Int(st["d"])})
+					case "sync":
+						emit(vx.M{"ev": "sync", "users": st["users"]})
+					case "edit":
+						emit(vx.M{"ev": "edit", "users": st["users"]})
+					case "reconf":
+						emit(vx.M{"ev": "reconf", "cfg": st["cfg"], "mat": st["mat"], "users": st["users"]})
+					case "settle":
+						recheck := ""
+						if !conv {
+							recheck = "failed"
+							if w2, conv2, took2 := c06Recheck(cfg, rep, vx.Int(beh[0]["now"]), beh[1:si+2]); w2 != nil {
+								w.close()
+								w = w2
+								if conv2 {
+									conv, recheck = true, "converged"
+								}
+								took = took2
+							}
+							if !conv {
+								c06Stuck++
+							}
+						}
+						ln := emit(vx.M{"ev": "settle", "conv": conv, "ms": took.Milliseconds()})
+						out.Raw(vx.M{"k": "settle", "line": ln, "beh": bi, "rep": rep, "step": si + 1, "conv": conv, "us": took.Microseconds(),
+							"recheck": recheck, "burst": w.maxBurst, "how": w.editNotes})
+						if !conv {
+							// the file has not been touched for the bounded time and its last line is still not in effect: which
+							// table is?  The right credentials of every user in both versions are presented (no prediction
+							// attached: TLC judges them in the trace validation)
+							hv := []interface{}{}
+							if vx.Str(w.cfg["hdr"]) != "off" {
+								hv = append(hv, map[string]interface{}{"values": "inValues", "regexp": "matchRe", "both": "inValues"}[vx.Str(w.cfg["hdr"])])
+							}
+							for _, u := range c06KnownUsers {
+								for _, ver := range []string{"v1", "v2"} {
+									present(w, bi, si, rep, vx.M{"hv": hv, "auth": "basic", "tok": c06NoTok(), "ck": c06NoTok(), "sg": c06NoSg(),
+										"bs": vx.M{"p": true, "user": u, "ver": ver, "pw": "right", "b64": true}}, vx.M{})
+								}
+							}
+						}
+					}
 				case "present":
-					areq := c06M(st["req"])
-					c := c06Concretise(w, areq, rep)
-					chunked := vx.Rand(c06Hash("chunk", cfg, c06Family(areq), rep)).Intn(4) == 0
-					obs, wire := c06Serve(w, c, chunked)
-					res := vx.M{"acc": obs.acc, "status": obs.status, "intact": obs.intact}
-					ln := emit(vx.M{"ev": "present", "req": areq, "res": res})
-					sum := sha256.Sum256(c.body)
-					out.Raw(vx.M{"k": "case", "line": ln, "beh": bi, "step": si + 1, "rep": rep, "cfg": w.cfg, "mat": w.mat, "gen": w.gen,
-						"history": w.history, "now": w.now, "users": map[string]string{"uPlain": w.users["uPlain"], "uColon": w.users["uColon"], "uBlank": w.users["uBlank"]},
-						"req": areq, "exp": st["exp"], "v": st["v"], "impl": st["impl"], "res": res, "tag": obs.tag, "panic": obs.panicV,
-						"result": obs.result, "wire": wire, "bodyLen": len(c.body), "bodySha": hex.EncodeToString(sum[:6]),
-						"chunked": chunked && len(c.body) > 0, "mutations": c.note})
-					cases++
+					present(w, bi, si, rep, c06M(st["req"]), st)
 				default:
 					t.Fatalf("unknown step %v", st["a"])
 				}
